@@ -35,6 +35,7 @@ def rules(ctx):
     c137(ctx)
     c138(ctx)
     c139(ctx)
+    c1310(ctx)
 
 
 def c13_open_options(ctx):
@@ -360,6 +361,34 @@ def c139(ctx):
         ctx.check(R, f, "backup-link-not-repeated", ok, "the backup link is taken only when the current log is not already the newest backup",
                   "rollover links MANIFEST under the next backup number unconditionally: after a death between that link and the final rename the next "
                   "open links the same log a second time, and the fragments no longer chain (MANIFEST.N+1 is a copy of MANIFEST.N)", pt=p_)
+
+
+def c1310(ctx):
+    R = "C13.10"
+    ctx.declare(R, "a roll-up carries the complete state: Manifest::to_edit walks the whole string set and the whole info map, dropping no element, and "
+                   "puts every element into the edit (rollover writes that edit as the first transaction of the new log, verify derives its expectation from it)")
+    f = ctx.fn(R, M + "to_edit")
+    if not f:
+        return
+    n = 0
+    for what, callee in (("string", r"mani::Edit::add$"), ("info", r"mani::Edit::info$")):
+        calls = P.call_points(f, callee)
+        ctx.floor(R, "to_edit: Edit::%s calls" % what, len(calls), 1)
+        for c in calls:
+            heads = [h for h in P.call_points(f, r"Iterator>?::next$") if P.reach(f, P.after(f, h), [c]) and P.reach(f, P.after(f, c), [h])]
+            ok = bool(heads)
+            why = "not inside a loop"
+            for h in heads:
+                n += 1
+                ity = K.loop_iterator_type(f, h)
+                if K.DROPPING_ADAPTERS.search(ity):
+                    ok, why = False, "the loop drops elements (%s)" % ity
+                q = P.reach(f, P.after(f, h), [h], avoid={c} | set(P.error_points(f)))
+                if q is not None:
+                    ok, why = False, "a turn of the loop can skip the call"
+            ctx.check(R, f, "roll-up-is-complete:" + what, ok, "every %s of the state is put into the roll-up" % what,
+                      "Manifest::to_edit does not put every %s of the state into the roll-up (%s): the first rollover -- every open performs one -- "
+                      "silently drops what is left out, and verify, which derives its expectation from the same function, agrees" % (what, why), pt=c)
 
 
 def c135(ctx):
